@@ -59,6 +59,13 @@ def nondet_str(tag, n, lo=48, hi=57):
     return _nd(tag)
 
 
+def opaque_bytes(tag, length):
+    """a buffer of `length` bytes whose content the property does not depend on. Natively: real bytes whose every
+    byte is derived from the tag (buffers of different tags differ); symbolically: an opaque rope of symbolic length."""
+    seed = sum(ord(c) for c in str(tag)) % 251 + 1
+    return bytes([seed]) * length
+
+
 def cover(label):
     """reachability marker (vacuity guard): counted when executed"""
 
